@@ -667,7 +667,8 @@ def bytes_eq(a, b):
 
 
 # ------------------------------------------------------------------- hang detection
-class HangDetected(Exception):
+class HangDetected(BaseException):
+    """(BaseException: a broad 'except Exception' inside the code under test must not swallow it)"""
     pass
 
 
@@ -683,7 +684,7 @@ class deadline:
         def _h(signum, frame):
             raise HangDetected("no progress for %ss" % self.seconds)
         self._old = signal.signal(signal.SIGALRM, _h)
-        signal.setitimer(signal.ITIMER_REAL, self.seconds)
+        signal.setitimer(signal.ITIMER_REAL, self.seconds, 1.0)      # keeps firing every second after the deadline
         return self
 
     def __exit__(self, *a):
